@@ -127,6 +127,13 @@ def check(case, ctx):
         i = tuple(int(x) for x in bad[0])
         raise Violation("values differ from the same operation on the undivided domain", index=list(i), dims=exp_dims_base,
                         got=float(gv[i]), expected=float(exp[i]), n_bad=int(len(bad)), orients=orients, table=table_json(table))
+    # history independence on the same Grid: another axis / target / rule in between, then the same call again
+    other_to = "outer" if case["to"] != "outer" else "left"
+    must_return("another call on the same Grid", getattr(grid, case["op"]), da, "XY"[1 - case["axis"]], to=other_to, boundary="extend")
+    again = must_return(f"Grid.{case['op']} (repeated)", getattr(grid, case["op"]), da, "XY"[case["axis"]], **ckw)
+    if list(again.dims) != exp_dims or not np.array_equal(np.asarray(again.transpose(*exp_dims_base).values), exp):
+        raise Violation("the same call repeated after another call on the same Grid gives another result")
+
     kinds = link_kinds(table)
     special = any(("swap" in k or "rev" in k) for k in kinds)
     nonconst = bool(np.ptp(G) > 0)
